@@ -377,12 +377,13 @@ Judge(pre, A, gh, c, res, post, B) ==
         prune    == IF c.op = "Prune" /\ (DOMAIN post.objs # reach \/ RangeOf(res.ids) # DOMAIN pre.objs \ reach)
                     THEN {"prune"} ELSE {}
         \* ---- CountsOk, MaxIdOk
-        counts   == IF B.counts THEN {} ELSE {"counts"}
+        counts   == IF B.counts \/ ~A.counts THEN {} ELSE {"counts"}        \* reported by the step that breaks it
         issued1  == CASE c.op = "NewObjectId" -> gh.issued \cup {res.id}
                       [] c.op = "Replace"     -> gh.issued \ {c.id}
                       [] c.op \in Rekeying    -> {}
                       [] OTHER                -> gh.issued
-        maxid    == IF post.max_id >= MaxOf(DOMAIN post.objs \cup issued1) THEN {} ELSE {"maxid"}
+        maxid    == IF post.max_id >= MaxOf(DOMAIN post.objs \cup issued1)
+                       \/ pre.max_id < MaxOf(DOMAIN pre.objs \cup gh.issued) THEN {} ELSE {"maxid"}
         \* ---- ContentOk
         badp     == {p \in RangeOf(pp1) : B.content[p] # exp[p]}
         content  == IF badp = {} THEN {}
@@ -463,8 +464,8 @@ Violations(tags) == tags \ DriftTags
 -----------------------------------------------------------------------------
 (* Impl-shaped layer: the calls as lopdf runs them.  dev = switches (TRUE = as the code is). *)
 
-DevAsIs     == [dup |-> TRUE, sdict |-> TRUE, trailer |-> TRUE, shadow |-> TRUE, refarr |-> TRUE]
-DevRepaired == [dup |-> FALSE, sdict |-> FALSE, trailer |-> FALSE, shadow |-> FALSE, refarr |-> FALSE]
+DevAsIs     == [asis |-> TRUE, dup |-> TRUE, sdict |-> TRUE, trailer |-> TRUE, shadow |-> TRUE, refarr |-> TRUE]
+DevRepaired == [asis |-> FALSE, dup |-> FALSE, sdict |-> FALSE, trailer |-> FALSE, shadow |-> FALSE, refarr |-> FALSE]
 
 Out(d, res) == [doc |-> d, res |-> res]
 
